@@ -341,7 +341,13 @@ def schedule_pass(ctx):
         trace = os.path.join(ctx.work, "schedules-%s.ndjson" % spec)
         o, dt2 = ctx.sim(["schedules", "-in", sfile, "-out", trace])
         info = json.loads(o.strip().splitlines()[-1])
-        ctx.cov["passes"].append({"pass": "b2-schedules:" + spec, "tlc_wall_s": round(dt, 1), "harness_wall_s": round(dt2, 1), **info})
+        kinds = {}
+        for sch in scheds:
+            for lab in sch:
+                k = lab.split("|")[-1].split(":")[0]
+                kinds[k] = kinds.get(k, 0) + 1
+        ctx.cov["passes"].append({"pass": "b2-schedules:" + spec, "tlc_wall_s": round(dt, 1), "harness_wall_s": round(dt2, 1), **info,
+                                  "labels_per_model_action": dict(sorted(kinds.items()))})
         ctx.cov["traces_validated_against_impl"] += info["schedules"]
         ctx.cov["evaluations"] += info["events"]
         ctx.cov["samples"].append({"schedule": scheds[0][:25]})
